@@ -266,7 +266,7 @@ def search_programs(ctx: Ctx, pl: cxx.Pipeline) -> SearchResult:
 	# 2. generated programs: generating is cheap, transpiling + compiling is not. A pool is generated and the programs that run are
 	# selected so that EVERY construct feature of the generator (for over enumerate / dict views / object views, list and dict comprehensions,
 	# default arguments, every augmented operator, ...) occurs in at least `need` of them, whatever the seed; the rest is filled in pool order
-	n = ctx.scale(40, 600)
+	n = ctx.scale(40, 450)
 	pool = [gen_prog.generate(random.Random(rng.random()), size=1 + i % 3) for i in range(ctx.scale(1500, 3000))]
 	# (programs free of the known defect classes are preferred for the cover: a failing program costs an attribution, and the fill keeps the others)
 	chosen, uncovered = select_cover(random.Random(rng.random()), [h for _, h in pool], n, need=ctx.scale(2, 6),
@@ -1088,7 +1088,7 @@ def stream_stmt(ctx: Ctx) -> Stream:
 	fuel = 400
 	progs = []
 	shape: Counter[str] = Counter()
-	for _ in range(ctx.scale(80, 500)):
+	for _ in range(ctx.scale(80, 400)):
 		g = StmtGen(rng)
 		progs.append(g.program())
 		shape.update(g.shape)
@@ -1207,7 +1207,7 @@ def stream_emit(ctx: Ctx) -> Stream:
 	forced = forced_pairs(rng)
 	items = list(forced)
 	depth = ctx.scale(6, 8)
-	for i in range(ctx.scale(300, 2000)):
+	for i in range(ctx.scale(300, 1500)):
 		items.append(('random', ot_gen(rng, rng.choice([T_INT, T_INT, T_BOOL, T_BOOL, T_FLOAT]), 1 + i % depth, mixed=i % 4 == 3)))
 	cases = []
 	dl = deadline(ctx, 150, 900)
@@ -1259,7 +1259,82 @@ STATEMENTS = {
 }
 
 
+def start_search(ctx: Ctx) -> tuple[Any, Any]:
+	"""The search (real transpiler + g++ + CPython; no Lean involved) runs in a forked child from the very start, overlapping the translator,
+	the lake build and the single-threaded correspondence streams of the parent. -> (process, receiving end of the result pipe)"""
+	import multiprocessing
+	import sys
+	import time
+	import traceback
+	sys.stdout.flush()
+	sys.stderr.flush()
+	mp = multiprocessing.get_context('fork')
+	recv, send = mp.Pipe(duplex=False)
+
+	def child() -> None:
+		try:
+			recv.close()
+			ctx._tmpdirs = []   # the child removes what the child creates
+			ctx.timings, ctx.notes = {}, []
+			t0 = time.time()
+			pl = cxx.Pipeline(ctx)
+			try:
+				res = [search_programs(ctx, pl)]
+			finally:
+				pl.close()
+			ctx.timings['search'] = round(time.time() - t0, 3)
+			send.send(('ok', res, ctx.notes, ctx.timings))
+		except common.InfraError as e:
+			send.send(('infra', str(e)))
+		except BaseException:  # noqa: BLE001 - reported by the parent as a crash of the harness (exit 2)
+			send.send(('crash', traceback.format_exc()))
+		finally:
+			try:
+				ctx.cleanup()
+				send.close()
+			finally:
+				os._exit(0)
+
+	p = mp.Process(target=child)   # not a daemon: it has children of its own (transpiler workers, g++)
+	p.start()
+	send.close()
+	return p, recv
+
+
+def collect_search(ctx: Ctx, started: tuple[Any, Any]) -> list[SearchResult]:
+	p, recv = started
+	try:
+		if not recv.poll(3 * 3600):
+			raise common.InfraError('the search process did not report within its wall limit')
+		msg = recv.recv()
+	except EOFError:
+		raise common.InfraError('the search process ended without a result') from None
+	finally:
+		p.join(30)
+		if p.is_alive():
+			p.kill()
+	if msg[0] == 'infra':
+		raise common.InfraError(msg[1])
+	if msg[0] == 'crash':
+		raise RuntimeError('search process crashed:\n' + msg[1])
+	_, res, notes, timings = msg
+	ctx.notes.extend(notes)
+	ctx.timings.update(timings)
+	return res
+
+
 def run(ctx: Ctx) -> int:
+	from translate import gen_cpp_templates
+	search_started = start_search(ctx)
+	try:
+		return _run(ctx, search_started)
+	except BaseException:
+		if search_started[0].is_alive():
+			search_started[0].kill()   # its own children end with their current g++ / transpile job
+		raise
+
+
+def _run(ctx: Ctx, search_started: tuple[Any, Any]) -> int:
 	from translate import gen_cpp_templates
 	translate_ok, translate_msg = True, ''
 	try:
@@ -1274,12 +1349,8 @@ def run(ctx: Ctx) -> int:
 			st = stream_emit(ctx)
 			streams = [st, stream_cpptable(ctx, st.raw_cases), stream_sem(ctx, st.raw_cases), stream_stmt(ctx)]  # type: ignore[attr-defined]
 			del st.raw_cases  # type: ignore[attr-defined]
-	with ctx.timed('search'):
-		pl = cxx.Pipeline(ctx)
-		try:
-			searches = [search_programs(ctx, pl)]
-		finally:
-			pl.close()
+	with ctx.timed('search-wait-after-correspondence'):
+		searches = collect_search(ctx, search_started)
 	return common.finish(ctx, proof, streams, searches, statements=STATEMENTS, translate_ok=translate_ok, translate_msg=translate_msg,
 		partial={
 			'proved': 'operator level: emitted tokens re-parsed by the C++ grammar (Prec table + wrapper grammar for ?:, calls, members) = Python grouping for every chain-free operator node incl. ternary, in / not in, fmod (group, group_full); '
